@@ -7,6 +7,20 @@ VERIF = os.path.dirname(os.path.dirname(os.path.abspath(__file__)))
 props = [json.loads(l) for l in open(os.path.join(VERIF, "properties.jsonl"))]
 
 CLAIMED = {
+    "C06": dict(
+        category="proof",
+        text="Closed theorems about the comparison that decides every size constraint (a polynomial normal form modelling "
+             "compare/expand): 'violated' is only said of two expressions that differ by the same non-zero integer under every "
+             "assignment, 'satisfied' only of two that agree under every assignment, a failing constraint evaluation always goes "
+             "back to a 'violated' verdict, and two integer sizes are always decided. So nothing consistent is rejected, and "
+             "compilation fails only if the sizes differ for every assignment. Partial: that preprocessing generates the right "
+             "constraint for every re-declared port (detection) is checked by the size-mismatch stream against the bottom-up "
+             "denotation (mismatch at some port <=> BartiqCompilationError at compile or evaluate, 4 total assignments per case).",
+        design_ref="DESIGN.md section 5 C06",
+        note="Trusted: Coq kernel; the normal form is a model of sympy's expand on the polynomial fragment (tied by the stream: "
+             "constraint statuses and error classes of the real code); both sizes integer-valued.",
+        technique="Coq soundness proof of the constraint comparison + differential mismatch stream against a denotational spec",
+    ),
     "C11": dict(
         category="proof",
         text="The standard reading of the language is an executable Gallina lexer + precedence-climbing parser (the specification). "
